@@ -36,6 +36,10 @@ class Untranslatable(Exception):
     pass
 
 
+class ArityMismatch(Untranslatable):
+    """the call does not fit the callee's signature: Python raises TypeError at the call"""
+
+
 def lchar(c: str) -> str:
     o = ord(c)
     if 32 <= o < 127 and c not in "'\\\"":
@@ -77,7 +81,8 @@ class FnSpec:
     drop_self: bool = False      # staticmethod called through self / cls
     returns_self: bool = False   # the method's effect is on `self` (Python returns None): translation returns the new self
     out_param: str | None = None  # a list parameter mutated in place: translation returns the new list
-    recursive: bool = False      # takes a fuel argument
+    recursive: bool = False      # takes a fuel argument (set automatically for members of a group)
+    group: str | None = None     # functions that call one another: emitted in one `mutual` block, recursion bounded by fuel
     doc: str = ""
 
 
@@ -92,7 +97,15 @@ SPECS: list[FnSpec] = [
     FnSpec("htmltools/_core.py", "TagAttrDict._normalize_attr_value", "normalize_attr_value", drop_self=True),
     FnSpec("htmltools/_core.py", "TagAttrDict.__setitem__", "TagAttrDict_setitem", returns_self=True),
     FnSpec("htmltools/_core.py", "TagAttrDict.update", "TagAttrDict_update", returns_self=True),
+    FnSpec("htmltools/_core.py", "Tag.get_html_string", "Tag_get_html_string", group="render"),
+    FnSpec("htmltools/_core.py", "TagList.get_html_string", "TagList_get_html_string", group="render"),
 ]
+
+#: method name -> classes whose translated method of that name a call `x.m(...)` may reach (decided at run time by
+#: the class of `x`; any other receiver raises AttributeError)
+DISPATCH = {"get_html_string": ["Tag", "TagList"]}
+#: instance fields holding an instance of a class with translated self-mutating methods
+FIELD_CLASS = {("Tag", "attrs"): "TagAttrDict", ("Tag", "children"): "TagList"}
 
 #: Lean text emitted *after* the named translation (dispatchers that need it)
 AFTER: dict[str, str] = {
@@ -107,6 +120,9 @@ def pyAdd (G : Globals) (a b : PVal) : PyM PVal :=
 ''',
 }
 
+#: one-argument builtins
+BUILTIN1 = {"enumerate": "pyEnumerate", "reversed": "pyReversed", "range": "pyRange", "list": "pyList", "tuple": "pyTuple"}
+
 # method name -> (primitive, number of explicit arguments accepted (min, max))
 STR_METHODS = {
     "endswith": ("pyEndswith", 1, 1),
@@ -114,7 +130,12 @@ STR_METHODS = {
     "items": ("pyItems", 0, 0),
     "keys": ("pyKeys", 0, 0),
     "values": ("pyValues", 0, 0),
+    "split": ("pySplit", 0, 0),
+    "strip": ("pyStrip", 0, 0),
+    "lower": ("pyLower", 0, 0),
 }
+#: string methods whose semantics depends on what the running interpreter contributes (passed through `G`)
+G_METHODS = {"pySplit", "pyStrip", "pyLower"}
 
 
 class Fn:
@@ -128,8 +149,8 @@ class Fn:
         self.lines: list[str] = []
         self.tmp = 0
         a = node.args
-        if a.posonlyargs or a.kwonlyargs and spec.qual not in KWONLY_OK:
-            raise Untranslatable("positional-only / keyword-only parameters")
+        if a.posonlyargs:
+            raise Untranslatable("positional-only parameters")
         self.params = [x.arg for x in a.args]
         self.vararg = a.vararg.arg if a.vararg else None
         self.kwarg = a.kwarg.arg if a.kwarg else None
@@ -304,6 +325,9 @@ class Fn:
         return f"(do pure {v})" if "←" in v else f"(pure {v})"
 
     def name(self, n: str) -> str:
+        for sc in reversed(getattr(self, "scopes", [])):
+            if n in sc:
+                return sc[n]
         if n in self.all_params or n in self.locals:
             return lname(n)
         if n in GLOBAL_NAMES:
@@ -375,19 +399,19 @@ class Fn:
             vals[info.vararg] = "(PVal.tuple [" + ", ".join(self.V(a) for a in args[len(rest):]) + "])"
             args = args[:len(rest)]
         if len(args) > len(rest):
-            raise Untranslatable("too many arguments")
+            raise ArityMismatch("too many arguments")
         for p, a in zip(rest, args):
             vals[p] = self.V(a)
         kwextra = []
         for k in kws:
             if k.arg in vals:
-                raise Untranslatable("duplicate argument")
+                raise ArityMismatch("duplicate argument")
             if k.arg in info.params or k.arg in info.kwonly:
                 vals[k.arg] = self.V(k.value)
             elif info.kwarg is not None:
                 kwextra.append(f"({lstr(k.arg)}, {self.V(k.value)})")
             else:
-                raise Untranslatable(f"unknown keyword {k.arg}")
+                raise ArityMismatch(f"unknown keyword {k.arg}")
         if info.kwarg is not None:
             vals[info.kwarg] = "(PVal.dict [" + ", ".join(kwextra) + "])"
         out = []
@@ -400,7 +424,7 @@ class Fn:
                     raise Untranslatable("non-constant default")
                 out.append(self.const(d.value))
             else:
-                raise Untranslatable(f"missing argument {p}")
+                raise ArityMismatch(f"missing argument {p}")
         fuel = " fuel" if info.spec.recursive else ""
         return f"(← {info.spec.lean} G{fuel} " + " ".join(out) + ")"
 
@@ -416,6 +440,8 @@ class Fn:
                 return f"(← pyLen {self.V(e.args[0])})"
             if f.id == "HTML" and len(e.args) == 1 and not e.keywords:
                 return f"(← mkHTML {self.V(e.args[0])})"
+            if f.id in BUILTIN1 and len(e.args) == 1 and not e.keywords:
+                return f"(← {BUILTIN1[f.id]} {self.V(e.args[0])})"
             if f.id in self.known_by_pyname():
                 return self.call_known(self.known_by_pyname()[f.id], e.args, e.keywords)
             raise Untranslatable(f"call of {f.id}")
@@ -434,6 +460,21 @@ class Fn:
                         if info.spec.returns_self:
                             raise Untranslatable("self-mutating method used as an expression")
                         return self.call_known(info, e.args, e.keywords, recv=None if info.spec.drop_self else self.name("self"))
+            # x.m(...) decided by the class of x at run time
+            if f.attr in DISPATCH:
+                arms = []
+                for cls in DISPATCH[f.attr]:
+                    info = next((i for i in self.known.values() if i.spec.qual == f"{cls}.{f.attr}"), None)
+                    if info is None or not info.available:
+                        raise Untranslatable(f"method {cls}.{f.attr} is not translated")
+                    try:
+                        call = self.call_known(info, e.args, e.keywords, recv=self.V(f.value))
+                        arms.append(f'| "{cls}" => (do pure {call})')
+                    except ArityMismatch:
+                        arms.append(f'| "{cls}" => throw PyErr.typeError')
+                return f"(← match pyClassOf {self.V(f.value)} with " + " ".join(arms) + " | _ => throw PyErr.attributeError)"
+            if f.attr == "_repr_html_" and not e.args and not e.keywords:
+                return f"(← pyReprHtml {self.V(f.value)})"
             # x.as_string() and other translated methods resolved by name
             for info in self.known.values():
                 if "." in info.spec.qual and info.spec.qual.split(".")[1] == f.attr and info.spec.qual.split(".")[0] in METHOD_OWNER.get(f.attr, ()):
@@ -443,7 +484,7 @@ class Fn:
             if f.attr in STR_METHODS and not e.keywords:
                 prim, lo, hi = STR_METHODS[f.attr]
                 if lo <= len(e.args) <= hi:
-                    return "(← " + " ".join([prim, self.V(f.value)] + [self.V(a) for a in e.args]) + ")"
+                    return "(← " + " ".join([prim] + (["G"] if prim in G_METHODS else []) + [self.V(f.value)] + [self.V(a) for a in e.args]) + ")"
             if f.attr == "get" and 1 <= len(e.args) <= 2 and not e.keywords:
                 d = self.V(e.args[1]) if len(e.args) == 2 else "PVal.none"
                 return f"(← pyDictGet {self.V(f.value)} {self.V(e.args[0])} {d})"
@@ -454,7 +495,28 @@ class Fn:
         return {i.spec.qual: i for i in self.known.values() if "." not in i.spec.qual}
 
     def listcomp(self, e: ast.ListComp) -> str:
-        raise Untranslatable("list comprehension")
+        raise Untranslatable("list comprehension outside the right-hand side of an assignment")
+
+    def listcomp_stmts(self, ind: int, e: ast.ListComp) -> str:
+        """`[elt for x in it if c …]` as the right-hand side of an assignment: the loop is emitted as statements
+        (the comprehension variable is scoped to it), the value is the accumulated list"""
+        if len(e.generators) != 1 or e.generators[0].is_async or not isinstance(e.generators[0].target, ast.Name):
+            raise Untranslatable("list comprehension with several generators / a pattern target")
+        g = e.generators[0]
+        acc = self.fresh("acc")
+        var = self.fresh("cv")
+        self.emit(ind, f"let mut {acc} : List PVal := []")
+        self.emit(ind, f"for {var} in (← pyIter {self.V(g.iter)}) do")
+        self.scopes = getattr(self, "scopes", []) + [{g.target.id: var}]
+        try:
+            k = ind + 1
+            for c in g.ifs:
+                self.emit(k, f"if truthy {self.V(c)} then")
+                k += 1
+            self.emit(k, f"{acc} := {acc} ++ [{self.V(e.elt)}]")
+        finally:
+            self.scopes = self.scopes[:-1]
+        return f"(PVal.list {acc})"
 
     # ---- statements
     def emit(self, ind: int, s: str):
@@ -471,6 +533,12 @@ class Fn:
                 raise Untranslatable(f"item assignment into {c}, which is not a container created in this function")
             nm = self.name(c)
             self.emit(ind, f"{nm} := (← pySetItem {nm} {self.V(target.slice)} {val})")
+            return
+        if isinstance(target, ast.Attribute) and isinstance(target.value, ast.Name) and (
+                target.value.id == "self" or target.value.id in self.fresh_objects):
+            nm = self.name(target.value.id)
+            self.mutates_self = self.mutates_self or target.value.id == "self"
+            self.emit(ind, f"{nm} := (← pySetAttr {nm} \"{target.attr}\" {val})")
             return
         if isinstance(target, (ast.Tuple, ast.List)) and len(target.elts) == 2 and all(isinstance(x, ast.Name) for x in target.elts):
             a, b = (self.name(x.id) for x in target.elts)
@@ -494,6 +562,9 @@ class Fn:
         if isinstance(s, ast.Assign):
             if len(s.targets) != 1:
                 raise Untranslatable("multiple assignment targets")
+            if isinstance(s.value, ast.ListComp):
+                self.assign_to(ind, s.targets[0], self.listcomp_stmts(ind, s.value))
+                return
             self.assign_to(ind, s.targets[0], self.V(s.value))
             return
         if isinstance(s, ast.AnnAssign):
@@ -576,6 +647,22 @@ class Fn:
                     me = self.name("self")
                     self.emit(ind, f"{me} := " + self.call_known(info, c.args, c.keywords, recv=me))
                     return
+        # self.<field>.<method>(...) where the field holds an instance whose translated method mutates it
+        if (isinstance(f, ast.Attribute) and isinstance(f.value, ast.Attribute) and isinstance(f.value.value, ast.Name)
+                and f.value.value.id == "self" and self.cls is not None and (self.cls.name, f.value.attr) in FIELD_CLASS):
+            owner = FIELD_CLASS[(self.cls.name, f.value.attr)]
+            me = self.name("self")
+            fld = f.value.attr
+            info = next((i for i in self.known.values() if i.spec.qual == f"{owner}.{f.attr}" and i.spec.returns_self), None)
+            if info is not None:
+                self.mutates_self = True
+                new = self.call_known(info, c.args, c.keywords, recv=f"(← pyGetAttr {me} \"{fld}\")")
+                self.emit(ind, f"{me} := (← pySetAttr {me} \"{fld}\" {new})")
+                return
+            if owner == "TagAttrDict" and f.attr == "pop" and len(c.args) == 1 and not c.keywords:
+                self.mutates_self = True
+                self.emit(ind, f"{me} := (← pySetAttr {me} \"{fld}\" (← pyDictPop (← pyGetAttr {me} \"{fld}\") {self.V(c.args[0])}))")
+                return
         # an expression statement whose value is dropped
         self.emit(ind, f"let _ := {self.V(c)}")
 
@@ -583,18 +670,29 @@ class Fn:
     def translate(self) -> str:
         body = self.node.body
         self.fresh_containers = self.find_fresh_containers()
+        self.fresh_objects: set[str] = set()
+        self.mutates_self = False
+        self.scopes = []
         sig = " ".join(f"({lname(p)} : PVal)" for p in self.all_params)
-        fuel = " (fuel : Nat)" if self.spec.recursive else ""
+        self.lines = []
+        base = 2 if self.spec.recursive else 1
+        self.stmts(base, body)
+        if not body or not self.terminal(body[-1]):
+            self.emit(base, f"return {self.name('self')}" if self.spec.returns_self else "return PVal.none")
+        stmts = self.lines
         self.lines = []
         for p in self.all_params:
-            if p in self.assigned_names(self.node) or (self.spec.returns_self and p == "self"):
-                self.emit(1, f"let mut {lname(p)} := {lname(p)}")
+            if p in self.assigned_names(self.node) or ((self.spec.returns_self or self.mutates_self) and p == "self"):
+                self.emit(base, f"let mut {lname(p)} := {lname(p)}")
         for v in self.locals:
-            self.emit(1, f"let mut {lname(v)} : PVal := PVal.none")
-        self.stmts(1, body)
-        if not body or not self.terminal(body[-1]):
-            self.emit(1, f"return {self.name('self')}" if self.spec.returns_self else "return PVal.none")
-        head = f"def {self.spec.lean} (G : Globals){fuel} {sig} : PyM PVal := do"
+            self.emit(base, f"let mut {lname(v)} : PVal := PVal.none")
+        decls = self.lines
+        self.lines = decls + stmts
+        if self.spec.recursive:
+            head = (f"def {self.spec.lean} (G : Globals) (fuel0 : Nat) {sig} : PyM PVal :=\n"
+                    f"  match fuel0 with\n  | 0 => throw PyErr.fuel\n  | fuel + 1 => do")
+        else:
+            head = f"def {self.spec.lean} (G : Globals) {sig} : PyM PVal := do"
         return head + "\n" + "\n".join(self.lines)
 
     def terminal(self, s: ast.stmt) -> bool:
@@ -650,6 +748,8 @@ EXC = {"TypeError": "typeError", "ValueError": "valueError", "KeyError": "keyErr
 GLOBAL_NAMES = {
     "HTML_ESCAPE_TABLE": "G.HTML_ESCAPE_TABLE",
     "HTML_ATTRS_ESCAPE_TABLE": "G.HTML_ATTRS_ESCAPE_TABLE",
+    "_VOID_TAG_NAMES": "(PVal.list (G.VOID_TAG_NAMES.map PVal.str))",
+    "_NO_ESCAPE_TAG_NAMES": "(PVal.list (G.NO_ESCAPE_TAG_NAMES.map PVal.str))",
 }
 #: instance fields that hold a plain `str` (`UserString.data`)
 STR_FIELDS = {("HTML", "data")}
@@ -674,8 +774,23 @@ def find(mod: ast.Module, qual: str):
 
 def stub(spec: FnSpec, nparams: int) -> str:
     sig = " ".join(f"(_a{i} : PVal)" for i in range(nparams))
-    fuel = " (_fuel : Nat)" if spec.recursive else ""
+    fuel = " (_fuel : Nat)" if (spec.recursive or spec.group) else ""
     return f"def {spec.lean} (_G : Globals){fuel} {sig} : PyM PVal := throw PyErr.unsupported"
+
+
+def _signature(spec: FnSpec, mods: dict, known: dict) -> "Fn":
+    path = os.path.join(repo(), spec.file)
+    if spec.file not in mods:
+        with open(path, encoding="utf-8") as f:
+            mods[spec.file] = ast.parse(f.read())
+    node, cls = find(mods[spec.file], spec.qual)
+    if node is None:
+        raise Untranslatable("function not found in the source")
+    return Fn(spec, node, cls, known)
+
+
+def _info_of(fn: "Fn", text: str = "") -> FnInfo:
+    return FnInfo(fn.spec, True, fn.params, fn.all_params, fn.kwonly, fn.vararg, fn.kwarg, fn.defaults, "", text)
 
 
 def generate(write: bool = True) -> dict:
@@ -685,32 +800,53 @@ def generate(write: bool = True) -> dict:
            "import HtmlVerif.Py.Prim", "", "set_option linter.unusedVariables false", "",
            "namespace HtmlVerif.Generated.Src", "open HtmlVerif HtmlVerif.Py", ""]
     notes = []
+    done: set[str] = set()
+
+    def unavailable(spec: FnSpec, reason: str):
+        notes.append(f"source tie unavailable for {spec.qual}: {reason} (the correspondence check alone ties the model to this function)")
+
     for spec in SPECS:
-        path = os.path.join(repo(), spec.file)
-        info = FnInfo(spec, False)
-        nparams = None
+        if spec.lean in done:
+            continue
+        members = [x for x in SPECS if x.group == spec.group] if spec.group else [spec]
+        for m in members:
+            m.recursive = m.recursive or bool(m.group)
+            done.add(m.lean)
+        fns: dict[str, Fn] = {}
+        reason = ""
         try:
-            if spec.file not in mods:
-                with open(path, encoding="utf-8") as f:
-                    mods[spec.file] = ast.parse(f.read())
-            node, cls = find(mods[spec.file], spec.qual)
-            if node is None:
-                raise Untranslatable("function not found in the source")
-            fn = Fn(spec, node, cls, known)
-            nparams = len(fn.all_params)
-            text = fn.translate()
-            info = FnInfo(spec, True, fn.params, fn.all_params, fn.kwonly, fn.vararg, fn.kwarg, fn.defaults, "", text)
+            for m in members:
+                fns[m.lean] = _signature(m, mods, known)
+            for m in members:          # signatures first: members may call one another
+                known[m.lean] = _info_of(fns[m.lean])
+            for m in members:
+                known[m.lean].text = fns[m.lean].translate()
         except (Untranslatable, SyntaxError, OSError) as e:
-            info.reason = f"{type(e).__name__}: {e}"
-            notes.append(f"source tie unavailable for {spec.qual}: {info.reason} (the correspondence check alone ties the model to this function)")
-        known[spec.lean] = info
-        out.append(f"/-- `{spec.qual}` ({spec.file}) -/" if info.available else f"/-- `{spec.qual}`: not in the translatable fragment — {info.reason} -/")
-        out.append(f"def {spec.lean}_available : Bool := {'true' if info.available else 'false'}")
-        out.append(info.text if info.available else stub(spec, nparams if nparams is not None else ARITY.get(spec.lean, 1)))
-        out.append("")
-        if spec.lean in AFTER:
-            out.append(AFTER[spec.lean].strip("\n"))
+            reason = f"{type(e).__name__}: {e}"
+        if reason:
+            for m in members:
+                info = FnInfo(m, False)
+                info.reason = reason if len(members) == 1 else f"{reason} (in the group `{m.group}` of functions that call one another)"
+                known[m.lean] = info
+                unavailable(m, info.reason)
+        if spec.group:
+            out.append("mutual")
+        for m in members:
+            info = known[m.lean]
+            nparams = len(fns[m.lean].all_params) if m.lean in fns else ARITY.get(m.lean, 1)
+            out.append(f"/-- `{m.qual}` ({m.file}) -/" if info.available else f"/-- `{m.qual}`: not in the translatable fragment — {info.reason} -/")
+            out.append(info.text if info.available else stub(m, nparams))
             out.append("")
+        if spec.group:
+            out.append("end")
+            out.append("")
+        for m in members:
+            out.append(f"def {m.lean}_available : Bool := {'true' if known[m.lean].available else 'false'}")
+        out.append("")
+        for m in members:
+            if m.lean in AFTER:
+                out.append(AFTER[m.lean].strip("\n"))
+                out.append("")
     out.append("end HtmlVerif.Generated.Src")
     text = "\n".join(out) + "\n"
     if write:
@@ -724,7 +860,8 @@ def generate(write: bool = True) -> dict:
 
 #: arity of the stub when the function itself cannot even be found
 ARITY = {"html_escape": 2, "HTML_as_string": 1, "HTML_add": 2, "HTML_radd": 2, "normalize_text": 1,
-         "normalize_attr_name": 1, "normalize_attr_value": 1, "TagAttrDict_setitem": 3, "TagAttrDict_update": 3}
+         "normalize_attr_name": 1, "normalize_attr_value": 1, "TagAttrDict_setitem": 3, "TagAttrDict_update": 3,
+         "Tag_get_html_string": 3, "TagList_get_html_string": 5}
 
 if __name__ == "__main__":
     r = generate(write="--dry" not in sys.argv)
